@@ -3,7 +3,7 @@ from __future__ import annotations
 
 import ast
 
-from ..fdai import Obj, Unknown, explore, Imprecise, EnumVal, PyRaise
+from ..fdai import Obj, Unknown, explore, Imprecise, EnumVal, PyRaise, cmp_outcome
 from ..loader import AnchorError, short, src, walk_no_nested, is_self_attr
 from ..rules import where, package_attr_writes, attr_writes
 from .loopsmodel import EXC, OTHER, Harness, alphabet, gates, LOOPS, sname
@@ -44,8 +44,11 @@ def run(p, led, tier):
         return dict(ret=r, writes=[e for e in it.events if e[0] == "write"], final=sname(obj.fields["_circuit_state"]),
                     count=obj.fields["_failure_count"], last=obj.fields["_last_failure"], decisions=list(it.decisions))
 
-    def decided(dec, needle, outcome=True):
-        return any(needle in d[0] and d[1] is outcome for d in dec)
+    def elapsed_held(dec):
+        return any(cmp_outcome(d, "_last_failure", "recovery_timeout") in ("ge", "gt") for d in dec)
+
+    def threshold_held(dec):
+        return any(cmp_outcome(d, "_failure_count", "failure_threshold") in ("ge", "gt") for d in dec)
 
     for mname in ("_check_circuit", "_record_failure", "_record_success", "reset_circuit_breaker"):
         for st in STATES:
@@ -64,7 +67,7 @@ def run(p, led, tier):
                     if st == "HALF_OPEN" and (sw or r["ret"] is not True):
                         probs.append(f"half-open breaker must admit the probe unchanged: ret={r['ret']!r} writes={sw}")
                     if st == "OPEN":
-                        elapsed = decided(r["decisions"], "recovery_timeout", True)
+                        elapsed = elapsed_held(r["decisions"])
                         if sw and not elapsed:
                             probs.append(f"OPEN→{fin} without the recovery-timeout test having held")
                         if sw and sw != [("OPEN", "HALF_OPEN")]:
@@ -79,7 +82,7 @@ def run(p, led, tier):
                         probs.append(f"failure count not incremented by exactly one ({[repr(w[4]) for w in inc]})")
                     if not any(w[2] == "_last_failure" for w in r["writes"]):
                         probs.append("last-failure time not rewritten (the recovery timeout is not restarted)")
-                    reached = decided(r["decisions"], "failure_threshold", True)
+                    reached = threshold_held(r["decisions"])
                     if st == "CLOSED":
                         if sw and sw != [("CLOSED", "OPEN")]:
                             probs.append(f"illegal write(s) {sw}")
@@ -146,7 +149,7 @@ def run(p, led, tier):
                 agents = [e for e in ev if e[0] == "express"]
                 cache = [e for e in ev if e == ("call", "CoherentFeedForwardLoop._check_cache")]
                 f = r["fields"]
-                refused = breaker and st == "OPEN" and not decided(out["decisions"], "recovery_timeout", True)
+                refused = breaker and st == "OPEN" and not elapsed_held(out["decisions"])
                 if refused:
                     n_ref += 1
                     if agents or cache:
